@@ -210,6 +210,65 @@ def check_mexp_cases(ctx, binp, runner, st, cases):
         ctx.cov["samples"].append({"mexp": {"curve": cs["c"], "w": cs["w"], "a": cs["a"], "s": cs["s"], "res": cs["res"]}})
 
 
+def section_vcom(ctx, binp, runner, st):
+    """Pedersen commitments (pedersen_commitment/key.rs): VecCommitmentKey with n = 1..6 bases a_i*g, h = ah*g, committing to
+    k values for every k in 0..=n, and the scalar CommitmentKey.  Oracles: naive sum_{i<k} v_i*g_i + r*h with the curve's own
+    add/mul (harness), and (sum_{i<k} v_i*a_i + r*ah)*g in the exponent (computed here, checked by the harness `dlog` mode);
+    the exponent formula is the statement of vec_commit_correct (Props/C20.v)."""
+    cases = harness_cases(ctx, binp, "vcom", 2 if ctx.quick else 8)
+    if cases is None:
+        return
+    check_vcom_cases(ctx, binp, st, cases)
+
+
+def check_vcom_cases(ctx, binp, st, cases):
+    dist = {}
+    rdist = {}
+    dl = []
+    for cs in cases:
+        r = ORDER[cs["c"]]
+        key = "%s n=%d k=%d" % (cs["k"], cs["n"], cs["kk"])
+        dist[key] = dist.get(key, 0) + 1
+        rdist[cs["rcls"]] = rdist.get(cs["rcls"], 0) + 1
+        a = [int(x, 16) for x in cs["a"]]
+        v = [int(x, 16) for x in cs["v"]]
+        rr = int(cs["r"], 16)
+        ah = int(cs["ah"], 16)
+        expo = (sum(x * y for x, y in zip(v, a[:len(v)])) + rr * ah) % r
+        what = "VecCommitmentKey::hide_worker (%d bases, %d values)" % (cs["n"], cs["kk"]) if cs["k"] == "vcom" else "CommitmentKey::hide"
+        repl = {"section": "vcom", "seed": ctx.seed, "case": cs, "expected_dlog": "%x" % expo}
+        if cs["res"] == "PANIC":
+            ctx.violation(dict(repl, impl="PANIC"), "%s panicked (curve %s)" % (what, cs["c"]))
+            continue
+        if cs["res"] == "NONE":
+            ctx.violation(dict(repl, impl="None"), "%s returned None although values.len() <= gs.len() (curve %s)" % (what, cs["c"]))
+            continue
+        if not cs["naive_ok"]:
+            ctx.violation(dict(repl, oracle="naive sum on the implementation"),
+                          "%s is not sum_{i<k} v_i*g_i + r*h (curve %s, randomness class %s)" % (what, cs["c"], cs["rcls"]))
+        if not cs["hide_same"]:
+            ctx.violation(repl, "%s: hide and hide_worker disagree (curve %s)" % (what, cs["c"]))
+        if not cs["open_ok"]:
+            ctx.violation(dict(repl, oracle="open on the naive commitment"),
+                          "%s: open rejects the commitment sum v_i*g_i + r*h for the committed values and randomness (curve %s)" % (what, cs["c"]))
+        if not cs["open_rej"]:
+            ctx.violation(repl, "%s: open accepts the commitment for randomness + 1 (curve %s)" % (what, cs["c"]))
+        if not cs["over_none"]:
+            ctx.violation(repl, "VecCommitmentKey::hide_worker accepts more values than bases" if cs["k"] == "vcom"
+                          else "CommitmentKey::hide of value 0 / randomness 0 is not the identity")
+        dl.append((cs, "%s %x %s" % (cs["c"], expo, cs["res"]), repl, what))
+        st.seen.add(c.digest(["vcom", cs["c"], cs["a"], cs["ah"], cs["v"], cs["r"]]))
+    oks = run_harness_stdin(binp, "dlog", [l for _, l, _, _ in dl])
+    for (cs, l, repl, what), ok in zip(dl, oks):
+        if ok.strip() != "1":
+            ctx.violation(dict(repl, oracle="in the exponent (vec_commit_correct)", impl_point=cs["res"]),
+                          "%s is not (sum_{i<k} v_i*a_i + r*ah)*g for bases a_i*g, h = ah*g (curve %s, randomness class %s)" % (
+                              what, cs["c"], cs["rcls"]))
+    st.evals += len(cases)
+    ctx.notes["vcom_cases_per_n_k"] = dist
+    ctx.notes["vcom_randomness_classes"] = rdist
+
+
 def section_enc(ctx, binp, runner, st):
     n = 40 if ctx.quick else 1500
     cases = harness_cases(ctx, binp, "enc", n)
@@ -524,7 +583,7 @@ def section_g1dec(ctx, binp, runner, st):
     ctx.notes["g1_decode_distribution"] = g1dec_compare(ctx, binp, runner, st, items)
 
 
-SECTIONS = [("wnaf", section_wnaf), ("mexp", section_mexp), ("enc", section_enc), ("shamir", section_shamir), ("kd", section_kd), ("g1dec", section_g1dec)]
+SECTIONS = [("wnaf", section_wnaf), ("mexp", section_mexp), ("vcom", section_vcom), ("enc", section_enc), ("shamir", section_shamir), ("kd", section_kd), ("g1dec", section_g1dec)]
 
 
 def replay(ctx, binp, runner, st):
